@@ -10,6 +10,7 @@ CONSTANTS
   FixStats = TRUE
   AtomicAdd = TRUE
   TakeRegistry = TRUE
+  DrainLatchFirst = TRUE
   Det = TRUE
   MaxRetry = 1
   LateCalls = TRUE
